@@ -25,9 +25,11 @@ import (
 //
 // Script (one real HttpServer per case):
 //
-//	cfg cors=0|1 maxreq=N maxresp=N maxext=N maxup=N ext=0|1 upload=0|1 proofreq=0|1 introspect=0|1
-//	    proxyhdrs=<a,b|-> sticky=<N|-> echo=<a,b|-> comp=0|1 hookfail=0|1 pkce=0|1 pfx=</p|->
-//	    auth=0|1 oauth=0|1 dhook=0|1 notfound=0|1
+//	cfg cors=0|empty|cleared|1|star maxreq=Z maxresp=Z maxext=Z maxup=Z ext=0|nil|nostorage|nostoragethr|1|1thr
+//	    upload=0|cleared|1 proofreq=0|off|1 introspect=0|1 proxyhdrs=<a,b|-|empty|cleared> sticky=<-|Z+Z…>
+//	    echo=<a,b|-|nil|empty|cleared> comp=0|neg|1|default|lvl3|lvl4|back|badlvl hookfail=0|nilhook|1 pkce=0|1
+//	    pfx=</p|-|empty> auth=0|1 oauth=0|1 dhook=0|1 notfound=0|1
+//	(each value names one WAY of calling — or not calling — the setter; see c20Build)
 //	req <VERB> <path> rid=<x<hex>|absent> kind=<recipe> inner=<authenticator behaviour|->
 //
 // kind is the recipe for body / request headers that steers the exit path (the model ignores it):
@@ -180,6 +182,7 @@ func c20Build(cfgLine string) (s *c20Server, err error) {
 	if on("pkce") && !(on("auth") && on("oauth")) {
 		return nil, fmt.Errorf("pkce needs auth and oauth")
 	}
+	bad := func(k string) error { return fmt.Errorf("cfg %s=%s: unknown way", k, cfg[k]) }
 	w := &c20World{inner: "anon"}
 	srv := vgirpc.NewServer()
 	vgirpc.Unary(srv, "u1", func(_ context.Context, _ *vgirpc.CallContext, p c20P) (int64, error) { return p.X + 1, nil })
@@ -190,43 +193,116 @@ func c20Build(cfgLine string) (s *c20Server, err error) {
 		_ = ctx.OpenSession(c20Sess{}, 0)
 		return p.X, nil
 	})
-	if on("ext") {
+	// every way SetExternalLocation can be called
+	switch cfg["ext"] {
+	case "0":
+	case "nil":
+		srv.SetExternalLocation(nil)
+	case "nostorage": // a config that can only *read* external locations: no Storage, zero threshold
+		srv.SetExternalLocation(&vgirpc.ExternalLocationConfig{})
+	case "nostoragethr":
+		srv.SetExternalLocation(&vgirpc.ExternalLocationConfig{ExternalizeThresholdBytes: 4096, MaxRetries: 1})
+	case "1":
 		srv.SetExternalLocation(&vgirpc.ExternalLocationConfig{Storage: c20Storage{}})
+	case "1thr":
+		srv.SetExternalLocation(&vgirpc.ExternalLocationConfig{Storage: c20Storage{}, ExternalizeThresholdBytes: 1})
+	default:
+		return nil, bad("ext")
 	}
-	if on("hookfail") {
+	switch cfg["hookfail"] {
+	case "0":
+	case "nilhook":
+		srv.SetServeStartHook(nil)
+	case "1":
 		srv.SetServeStartHook(func(vgirpc.TransportKind, map[string]bool) error { return errors.New("start hook says no") })
+	default:
+		return nil, bad("hookfail")
 	}
 	if on("dhook") {
 		srv.SetDispatchHook(c20Hook{})
 	}
 	h := vgirpc.NewHttpServer(srv)
 	pfx := cfg["pfx"]
-	if pfx == "-" {
+	switch pfx {
+	case "-":
 		pfx = ""
-	}
-	if pfx != "" {
+	case "empty":
+		pfx = ""
+		h.SetPrefix("")
+	default:
 		h.SetPrefix(pfx)
 	}
 	h.SetEnableNotFoundPage(on("notfound"))
-	if on("cors") {
+	switch cfg["cors"] {
+	case "0":
+	case "empty":
+		h.SetCorsOrigins("")
+	case "cleared":
 		h.SetCorsOrigins("https://app.example")
+		h.SetCorsOrigins("")
+	case "1":
+		h.SetCorsOrigins("https://app.example")
+	case "star":
+		h.SetCorsOrigins("*")
+	default:
+		return nil, bad("cors")
 	}
-	if !on("comp") {
-		if err := h.SetCompressionLevel(0); err != nil {
-			return nil, err
+	switch cfg["comp"] {
+	case "1", "default":
+	case "0":
+		err = h.SetCompressionLevel(0)
+	case "neg":
+		err = h.SetCompressionLevel(-1)
+	case "lvl3":
+		err = h.SetCompressionLevel(3)
+	case "lvl4":
+		err = h.SetCompressionLevel(4)
+	case "badlvl": // rejected by the setter (unknown zstd level): the previous setting stays
+		if h.SetCompressionLevel(99) == nil {
+			return nil, fmt.Errorf("SetCompressionLevel(99) was accepted")
 		}
+	case "back":
+		if err = h.SetCompressionLevel(0); err == nil {
+			err = h.SetCompressionLevel(2)
+		}
+	default:
+		return nil, bad("comp")
+	}
+	if err != nil {
+		return nil, err
 	}
 	h.SetMaxRequestBytes(num("maxreq"))
 	h.SetMaxResponseBytes(num("maxresp"))
 	h.SetMaxExternalizedResponseBytes(num("maxext"))
 	h.SetMaxUploadBytes(num("maxup"))
-	if on("upload") {
+	switch cfg["upload"] {
+	case "0":
+	case "cleared":
 		h.SetUploadURLProvider(c20Provider{})
+		h.SetUploadURLProvider(nil)
+	case "1":
+		h.SetUploadURLProvider(c20Provider{})
+	default:
+		return nil, bad("upload")
 	}
-	if on("proofreq") {
+	switch cfg["proofreq"] {
+	case "0":
+	case "off":
 		h.SetProxyProofRequired(true)
+		h.SetProxyProofRequired(false)
+	case "1":
+		h.SetProxyProofRequired(true)
+	default:
+		return nil, bad("proofreq")
 	}
-	if cfg["proxyhdrs"] != "-" {
+	switch cfg["proxyhdrs"] {
+	case "-":
+	case "empty":
+		h.SetProxyAuthHeaders()
+	case "cleared":
+		h.SetProxyAuthHeaders("x-old")
+		h.SetProxyAuthHeaders()
+	default:
 		h.SetProxyAuthHeaders(strings.Split(cfg["proxyhdrs"], ",")...)
 	}
 	if on("introspect") {
@@ -265,10 +341,25 @@ func c20Build(cfgLine string) (s *c20Server, err error) {
 	}
 	s = &c20Server{h: h, w: w, cfg: cfg, pfx: pfx, minted: map[string]bool{}}
 	if cfg["sticky"] != "-" {
-		ttl, _ := strconv.Atoi(cfg["sticky"])
-		h.EnableSticky(time.Duration(ttl) * time.Second)
+		// EnableSticky called once per listed TTL (the first call creates the registry)
+		for _, t := range strings.Split(cfg["sticky"], "+") {
+			ttl, perr := strconv.Atoi(t)
+			if perr != nil {
+				return nil, bad("sticky")
+			}
+			h.EnableSticky(time.Duration(ttl) * time.Second)
+		}
 	}
-	if cfg["echo"] != "-" {
+	switch cfg["echo"] {
+	case "-":
+	case "nil":
+		h.SetStickyEchoHeaders(nil)
+	case "empty":
+		h.SetStickyEchoHeaders(map[string]string{})
+	case "cleared":
+		h.SetStickyEchoHeaders(map[string]string{"old-one": "x"})
+		h.SetStickyEchoHeaders(map[string]string{})
+	default:
 		m := map[string]string{}
 		for _, n := range strings.Split(cfg["echo"], ",") {
 			m[n] = "value-of-" + n
@@ -592,7 +683,7 @@ func c20Request(c *Case, s *c20Server, line, verb, path string, kv map[string]st
 			c.Oracle("externalization-header-bad-value", fmt.Sprintf("VGI-Externalization-Enabled=%q: %s", v, where))
 		}
 	}
-	if s.cfg["cors"] == "1" && s.cfg["hookfail"] != "1" {
+	if (s.cfg["cors"] == "1" || s.cfg["cors"] == "star") && s.cfg["hookfail"] != "1" {
 		tokenPreflight := verb == "OPTIONS" && s.cfg["pkce"] == "1" && path == s.pfx+"/_oauth/token"
 		if !tokenPreflight {
 			if !hasExpose {
@@ -628,63 +719,59 @@ func c20B(b bool) string {
 	return "0"
 }
 
+// c20Cfg: every field is the WAY the corresponding setter is (not) called.
 type c20Cfg struct {
-	cors, ext, upload, proofreq, introspect, comp, hookfail, pkce, auth, oauth, dhook, notfound bool
-	maxreq, maxresp, maxext, maxup                                                              int
-	proxyhdrs, echo                                                                             []string
-	sticky                                                                                      int // 0 = off
-	pfx                                                                                         string
+	cors, ext, upload, proofreq, comp, hookfail, proxyhdrs, sticky, echo, pfx string
+	introspect, pkce, auth, oauth, dhook, notfound                             bool
+	maxreq, maxresp, maxext, maxup                                             int
 }
 
 func (k c20Cfg) line() string {
-	lst := func(l []string) string {
-		if len(l) == 0 {
-			return "-"
-		}
-		return strings.Join(l, ",")
-	}
-	st := "-"
-	if k.sticky > 0 {
-		st = strconv.Itoa(k.sticky)
-	}
 	return fmt.Sprintf("cfg cors=%s maxreq=%d maxresp=%d maxext=%d maxup=%d ext=%s upload=%s proofreq=%s introspect=%s proxyhdrs=%s sticky=%s echo=%s comp=%s hookfail=%s pkce=%s pfx=%s auth=%s oauth=%s dhook=%s notfound=%s",
-		c20B(k.cors), k.maxreq, k.maxresp, k.maxext, k.maxup, c20B(k.ext), c20B(k.upload), c20B(k.proofreq), c20B(k.introspect),
-		lst(k.proxyhdrs), st, lst(k.echo), c20B(k.comp), c20B(k.hookfail), c20B(k.pkce), k.pfx, c20B(k.auth), c20B(k.oauth),
+		k.cors, k.maxreq, k.maxresp, k.maxext, k.maxup, k.ext, k.upload, k.proofreq, c20B(k.introspect),
+		k.proxyhdrs, k.sticky, k.echo, k.comp, k.hookfail, c20B(k.pkce), k.pfx, c20B(k.auth), c20B(k.oauth),
 		c20B(k.dhook), c20B(k.notfound))
 }
 
 func (k c20Cfg) p() string {
-	if k.pfx == "-" {
+	if k.pfx == "-" || k.pfx == "empty" {
 		return ""
 	}
 	return k.pfx
 }
 
+func (k c20Cfg) corsOn() bool { return k.cors == "1" || k.cors == "star" }
+
+// the ways each capability-related setter can be called (first entries = plain on/off, weighted)
+var (
+	c20WaysCors      = []string{"1", "1", "1", "star", "star", "0", "empty", "cleared"}
+	c20WaysExt       = []string{"0", "0", "1", "1", "1thr", "nil", "nostorage", "nostorage", "nostoragethr"}
+	c20WaysUpload    = []string{"0", "0", "1", "1", "1", "cleared"}
+	c20WaysProofreq  = []string{"0", "0", "0", "1", "1", "off"}
+	c20WaysComp      = []string{"1", "default", "default", "lvl3", "lvl4", "back", "badlvl", "0", "0", "neg"}
+	c20WaysHook      = []string{"0", "0", "0", "0", "0", "0", "0", "0", "0", "nilhook", "nilhook", "1"}
+	c20WaysProxyHdrs = []string{"-", "-", "-", "empty", "cleared", "x-proxy-user", "x-a,x-b"}
+	c20WaysSticky    = []string{"-", "-", "1", "30", "300", "86400", "0", "-5", "30+60", "30+0", "0+45", "0+0"}
+	c20WaysEcho      = []string{"-", "-", "nil", "empty", "cleared", "fly-force-instance-id", "a-b,c", "region,x-shard,zone"}
+	c20WaysPfx       = []string{"-", "-", "empty", "/vgi", "/vgi", "/a/b"}
+	c20WaysMax       = []int{0, 0, -1, 1, 64, 700, 4096, 1 << 20, 1 << 40}
+	c20WaysMaxReq    = []int{0, 0, -1, 1, 300, 900, 4096, 65536}
+)
+
 func c20RandCfg(r *Rng) c20Cfg {
-	k := c20Cfg{pfx: Pick(r, []string{"-", "-", "/vgi", "/a/b"})}
-	k.cors = r.Chance(70)
-	k.ext = r.Bool()
-	k.upload = r.Bool()
-	k.proofreq = r.Chance(40)
+	k := c20Cfg{
+		cors: Pick(r, c20WaysCors), ext: Pick(r, c20WaysExt), upload: Pick(r, c20WaysUpload),
+		proofreq: Pick(r, c20WaysProofreq), comp: Pick(r, c20WaysComp), hookfail: Pick(r, c20WaysHook),
+		proxyhdrs: Pick(r, c20WaysProxyHdrs), sticky: Pick(r, c20WaysSticky), echo: Pick(r, c20WaysEcho),
+		pfx: Pick(r, c20WaysPfx),
+	}
 	k.introspect = r.Bool()
-	k.comp = r.Chance(75)
-	k.hookfail = r.Chance(8)
 	k.auth = r.Chance(75)
 	k.oauth = r.Chance(50)
 	k.pkce = k.auth && k.oauth && r.Chance(50)
 	k.dhook = r.Chance(40)
 	k.notfound = r.Chance(70)
-	pickN := func() int { return Pick(r, []int{0, 0, 1, 64, 700, 4096, 1 << 20, 1 << 40}) }
-	k.maxreq, k.maxresp, k.maxext, k.maxup = Pick(r, []int{0, 0, 1, 300, 900, 4096, 65536}), pickN(), pickN(), pickN()
-	if r.Chance(40) {
-		k.proxyhdrs = [][]string{{"x-proxy-user"}, {"x-a", "x-b"}}[r.Intn(2)]
-	}
-	if r.Chance(65) {
-		k.sticky = Pick(r, []int{1, 30, 300, 86400})
-	}
-	if r.Chance(55) {
-		k.echo = [][]string{{"fly-force-instance-id"}, {"a-b", "c"}, {"region", "x-shard", "zone"}}[r.Intn(3)]
-	}
+	k.maxreq, k.maxresp, k.maxext, k.maxup = Pick(r, c20WaysMaxReq), Pick(r, c20WaysMax), Pick(r, c20WaysMax), Pick(r, c20WaysMax)
 	return k
 }
 
@@ -771,8 +858,11 @@ func c20Gen(g *Gen) {
 	m := g.N(60, 600)
 	for i := 0; i < m; i++ {
 		k := c20RandCfg(r)
-		k.cors = true
-		k.hookfail = i%9 == 8
+		k.cors = Pick(r, []string{"1", "star"})
+		k.hookfail = "0"
+		if i%9 == 8 {
+			k.hookfail = "1"
+		}
 		if i%2 == 0 {
 			k.auth, k.oauth = true, true
 		}
@@ -782,9 +872,89 @@ func c20Gen(g *Gen) {
 		}
 		g.Case(lines...)
 	}
+	// one-at-a-time: every way of calling every capability-related setter, against a short tour of exits
+	base := c20Cfg{cors: "1", ext: "0", upload: "0", proofreq: "0", comp: "default", hookfail: "0", proxyhdrs: "-",
+		sticky: "-", echo: "-", pfx: "-", auth: true, notfound: true}
+	tour := func(k c20Cfg) {
+		p := k.p()
+		lines := []string{k.line()}
+		for _, t := range []c20Target{{"POST", p + "/u1", "valid", "anon"}, {"POST", p + "/u1", "valid", "value"},
+			{"POST", p + "/nosuch", "valid", "anon"}, {"POST", p + "/u1", "badct", "anon"}, {"POST", p + "/u1", "toolarge", "anon"},
+			{"OPTIONS", p + "/u1", "acrh", "anon"}, {"GET", "/health", "empty", "anon"}, {"GET", "/no/such/page", "empty", "anon"},
+			{"POST", p + "/sess", "sessopen", "anon"}} {
+			lines = append(lines, c20ReqLine(t, c20Rid(r), k.auth))
+		}
+		g.Case(lines...)
+	}
+	uniq := func(l []string) []string {
+		seen := map[string]bool{}
+		var out []string
+		for _, x := range l {
+			if !seen[x] {
+				seen[x] = true
+				out = append(out, x)
+			}
+		}
+		return out
+	}
+	for _, v := range uniq(c20WaysCors) {
+		k := base
+		k.cors = v
+		tour(k)
+	}
+	for _, v := range uniq(c20WaysExt) {
+		k := base
+		k.ext = v
+		tour(k)
+	}
+	for _, v := range uniq(c20WaysUpload) {
+		k := base
+		k.upload, k.maxup = v, 77
+		tour(k)
+	}
+	for _, v := range uniq(c20WaysProofreq) {
+		k := base
+		k.proofreq = v
+		tour(k)
+	}
+	for _, v := range uniq(c20WaysComp) {
+		k := base
+		k.comp = v
+		tour(k)
+	}
+	for _, v := range uniq(c20WaysHook) {
+		k := base
+		k.hookfail = v
+		tour(k)
+	}
+	for _, v := range uniq(c20WaysProxyHdrs) {
+		k := base
+		k.proxyhdrs = v
+		tour(k)
+	}
+	for _, v := range uniq(c20WaysSticky) {
+		for _, e := range uniq(c20WaysEcho) {
+			k := base
+			k.sticky, k.echo = v, e
+			tour(k)
+		}
+	}
+	for _, v := range uniq(c20WaysPfx) {
+		k := base
+		k.pfx = v
+		tour(k)
+	}
+	for _, v := range c20WaysMax {
+		k := base
+		k.maxreq, k.maxresp, k.maxext, k.maxup, k.upload = 0, v, v, v, "1"
+		if v <= 65536 {
+			k.maxreq = v
+		}
+		tour(k)
+	}
 	// every boundary id against a plain route
 	k := c20RandCfg(r)
-	k.hookfail = false
+	k.hookfail = "0"
 	lines := []string{k.line()}
 	for _, v := range c20Rids {
 		lines = append(lines, c20ReqLine(c20Target{"POST", k.p() + "/u1", "valid", "anon"}, XS(v), k.auth))
